@@ -14,6 +14,7 @@ COOL = SEC
 DEFAULTS = {"window": 5 * SEC, "buckets": 50, "threshold": 900}   # = Model.default_config = today's source (GenProofs.v)
 OVERLAY = {
     "core/load/verif_c02_test.go": os.path.join(vlib.HARNESS, "overlay/load/verif_c02_test.go"),
+    "core/load/verif_c02_conc_test.go": os.path.join(vlib.HARNESS, "overlay/load/verif_c02_conc_test.go"),
     "core/stat/verif_cpu.go": os.path.join(vlib.HARNESS, "overlay/stat/verif_cpu.go"),
     "core/timex/relativetime.go": os.path.join(vlib.HARNESS, "overlay/timex/relativetime.go"),
 }
@@ -25,10 +26,11 @@ OVERLAY_RPC = dict(_CLOCK_CPU, **{"zrpc/internal/serverinterceptors/verif_c02_rp
 EXECUTORS = {   # executor -> (package, overlay, test)
     "shed": ("./core/load", OVERLAY, "^TestVerifC02$"),
     "group": ("./core/load", OVERLAY, "^TestVerifC02Group$"),
+    "conc": ("./core/load", OVERLAY, "^TestVerifC02Conc$"),
     "rest": ("./rest/handler", OVERLAY_REST, "^TestVerifC02Rest$"),
     "rpc": ("./zrpc/internal/serverinterceptors", OVERLAY_RPC, "^TestVerifC02Rpc$"),
 }
-EXEC_OF = {"shed": "shed", "multi": "shed", "group": "group", "rest": "rest", "wrest": "rest", "rpc": "rpc", "wrpc": "rpc"}
+EXEC_OF = {"conc": "conc", "shed": "shed", "multi": "shed", "group": "group", "rest": "rest", "wrest": "rest", "rpc": "rpc", "wrpc": "rpc"}
 REST_CODES = [200, 201, 204, 301, 400, 404, 429, 500, 502, 503, 503, 504]
 RPC_OUTS = ["ok", "err", "deadline", "wrapped", "status_deadline", "panic",
             # the request's own outcome collides with the shedder's values
@@ -223,6 +225,19 @@ class C02(Property):
         cs.append({"kind": "multi", "t0": B, "mode": "real",
                    "group": {"window": 2 * SEC, "buckets": 4, "threshold": 500, "via": "group", "key": ""},
                    "shedders": sh, "ops": ops})
+        # overlapping Allows with nothing in flight: 40 let in and drained one by one (capacity estimate 1, average ~ 8),
+        # then 3 calls parked inside Allow at once, CPU over the threshold: the first one released is let in (nothing in
+        # flight), the others see 1 and 2 in flight
+        ops = [["allow", B, 0, 0] for _ in range(40)] + [["pass", i, B + MS] for i in range(40)]
+        ops += [["enter"], ["enter"], ["enter"]]
+        ops += [["decide", 80, B + 2 * MS, 1000, 1000], ["fail", 83], ["decide", 81, B + 2 * MS, 1000, 1000], ["fail", 85],
+                ["decide", 82, B + 2 * MS, 1000, 1000], ["fail", 87], ["finish", 80], ["finish", 81], ["finish", 82]]
+        cs.append({"kind": "conc", "window": 10 * SEC, "buckets": 10, "threshold": 900, "t0": B, "ops": ops})
+        ops = [["allow", B, 0, 0] for _ in range(12)] + [["pass", i, B + MS] for i in range(12)]
+        ops += [["enter"], ["enter"], ["enter"], ["enter"]]
+        ops += [["decide", 24, B + 2 * MS, 1000, 1000], ["decide", 25, B + 2 * MS, 1000, 1000], ["decide", 26, B + 2 * MS + 1, 0, 0],
+                ["finish", 25], ["decide", 27, B + 2 * MS + 2, 0, 0], ["finish", 26], ["finish", 27], ["fail", 28]]
+        cs.append({"kind": "conc", "window": 10 * SEC, "buckets": 10, "threshold": 900, "t0": B, "ops": ops})
         # wrappers in front of a real shedder: handlers that panic / answer 503 / time out while others are in flight
         reqs = [{"codes": [], "body": True, "panic": False} for _ in range(14)]
         reqs[1] = {"codes": [500], "body": False, "panic": True}
@@ -324,6 +339,9 @@ class C02(Property):
             if r0 < 0.42:
                 cases.append(self._gen_phased(rng))
                 continue
+            if r0 < 0.52:
+                cases.append(self._gen_conc(rng))
+                continue
             window, buckets = self._config(rng)
             th = rng.choice(self.THRESHOLDS)
             omit = []
@@ -384,6 +402,59 @@ class C02(Property):
                     t += self._gap(rng, bd, window, lat_style)
             cases.append(self._case(window, buckets, th, t0, ops[:nops], enabled, via, mode, omit))
         return cases
+
+    # overlapping Allow calls under a forced schedule: a burst drains one by one (the average lags behind the count),
+    # then N calls are parked inside Allow at once and released in a chosen order, droppers parked again at the log line
+    def _gen_conc(self, rng):
+        window, buckets = rng.choice([(10 * SEC, 10), (10 * SEC, 10), (5 * SEC, 50), (SEC, 10), (3 * SEC, 5), (60 * SEC, 50),
+                                      (2 * SEC, 2), (SEC, 1), (3750 * MS, 50)])
+        bd = window // buckets
+        th = rng.choice([900, 900, 900, 500, 0, 990])
+        t0 = BASE + rng.choice([0, 1, rng.randrange(10 * SEC)])
+        hi = [max(th, 0), max(th, 0) + 1, 1000, 1000, 950 if th <= 950 else 1000]
+        lo = [th - 1, th - 100, 0] if th > 0 else [-1]
+        ops, holders = [], []       # holders: op indices (allow / decide) whose promise may be open
+        t = t0
+        for phase in range(rng.choice([1, 2, 2, 3])):
+            for _ in range(rng.choice([3, 6, 12, 25, 40])):          # a burst is let in ...
+                holders.append(len(ops))
+                ops.append(["allow", t, rng.choice(lo), rng.choice(lo)])
+            t += rng.choice([1, MS, 5 * MS, bd // 3 + 1])
+            keep = rng.choice([0, 0, 0, 1, 2, 5])                    # ... and drains one by one
+            rng.shuffle(holders)
+            while len(holders) > keep:
+                i = holders.pop()
+                ops.append(["pass", i, t] if rng.random() < 0.7 else ["fail", i])
+            t += rng.choice([0, 1, MS, bd, bd + 1, COOL // 2])
+            n = rng.choice([2, 3, 3, 4, 6])
+            parked = []
+            for _ in range(n):
+                parked.append(len(ops))
+                ops.append(["enter"])
+            undecided, droppers = list(parked), []
+            trace = rng.choice(["hi", "hi", "hi", "mixed"])
+            while undecided or droppers:
+                r = rng.random()
+                if undecided and (r < 0.6 or not droppers):
+                    tid = undecided.pop(rng.randrange(len(undecided)))
+                    t += rng.choice([0, 0, 1, MS])
+                    c1 = rng.choice(hi) if trace == "hi" or rng.random() < 0.6 else rng.choice(lo)
+                    c2 = c1 if rng.random() < 0.8 else rng.choice(hi + lo)
+                    holders.append(len(ops))
+                    droppers.append(tid)
+                    ops.append(["decide", tid, t, c1, c2])
+                elif droppers and r < 0.85:
+                    ops.append(["finish", droppers.pop(rng.randrange(len(droppers)))])
+                elif r < 0.92 and holders:
+                    i = holders.pop(rng.randrange(len(holders)))
+                    ops.append(["pass", i, t] if rng.random() < 0.5 else ["fail", i])
+                else:
+                    holders.append(len(ops))
+                    ops.append(["allow", t, rng.choice(hi + lo), rng.choice(hi)])
+            t += rng.choice([1, MS, COOL - 1, COOL, bd, window])
+            if len(ops) > 150:
+                break
+        return {"kind": "conc", "window": window, "buckets": buckets, "threshold": th, "t0": t0, "ops": ops}
 
     # multi-phase history on one shedder: warm up - overload and shed - drain to idle - pause - refill and overload
     # again - drain - an Allow on the idle shedder under full CPU (never shed)
@@ -624,6 +695,11 @@ class C02(Property):
                               "tries": r.get("tries", 1)}
                 elif kind in ("multi", "wrest", "wrpc"):
                     out[i] = {"obs": r["obs"], "tries": r.get("tries", 1)}
+                elif kind == "conc":
+                    bad = [b["bad"] for b in r["obs"] if b.get("bad")]
+                    if bad:
+                        raise ExecError("c02 conc executor: case %s: %s" % (cases[i].get("id"), bad[0]))
+                    out[i] = {"obs": r["obs"], "ws": r["ws"], "tries": r.get("tries", 1)}
                 else:
                     out[i] = {"obs": r["obs"]}
         return out
@@ -632,7 +708,7 @@ class C02(Property):
         # compile the overlay tests once (also proves they still build against the current tree)
         def one(ex):
             return self._run_executor(ex, [])
-        exs = [ex for ex in EXECUTORS if ex != "group"]
+        exs = [ex for ex in EXECUTORS if ex not in ("group", "conc")]
         if vlib.COVER:
             rs = [one(ex) for ex in exs]
         else:
@@ -692,6 +768,8 @@ class C02(Property):
             return "CMulti %s" % clist(["(%s)" % self._coq_shed(c, o) for c, o in self._split(case, obs)])
         if kind in ("wrest", "wrpc"):
             return self._coq_wreal(case, obs)
+        if kind == "conc":
+            return self._coq_conc(case, obs)
         return "CShed (%s)" % self._coq_shed(case, obs)
 
     @staticmethod
@@ -707,6 +785,28 @@ class C02(Property):
         if v in RPC_COQ and not v.startswith("panic") and not o["val"]:
             vis = "(VisStatus (-2))"   # the handler's value was lost
         return vis
+
+    def _coq_conc(self, case, obs):
+        items = []
+        for o, b in zip(case["ops"], obs["obs"]):
+            ka = "KA %s %s %s %s %s %s %s %s" % (cbool(b["shed"]), cz(b["fl"]), cz(b["mp"]), cz(b["rt"]), cz(b["am"]), cz(b["ae"]),
+                                                 cz(b["cm"]), cz(b["ce"]))
+            kn = "KN %s %s %s %s" % (cbool(b["ok"]), cz(b["fl"]), cz(b["am"]), cz(b["ae"]))
+            kr = "KR %s %s %s %s" % (cbool(b["done"]), cz(b["fl"]), cz(b["am"]), cz(b["ae"]))
+            if o[0] == "allow":
+                items.append("(KAllow %s %s %s, %s)" % (cz(o[1]), cz(o[2]), cz(o[3]), ka))
+            elif o[0] == "pass":
+                items.append("(KPass %s %s, %s)" % (cz(o[1]), cz(o[2]), kr))
+            elif o[0] == "fail":
+                items.append("(KFail %s, %s)" % (cz(o[1]), kr))
+            elif o[0] == "enter":
+                items.append("(KEnter, %s)" % kn)
+            elif o[0] == "decide":
+                items.append("(KDecide %s %s %s %s, %s)" % (cz(o[1]), cz(o[2]), cz(o[3]), cz(o[4]), ka))
+            else:
+                items.append("(KFinish %s, %s)" % (cz(o[1]), kn))
+        cfg = "(mkCfg %s %s %s true)" % (cz(case["window"]), cz(case["buckets"]), cz(case["threshold"]))
+        return "CConc %s %s (%s, %s) %s" % (cfg, cz(case["t0"]), cz(obs["ws"][0]), cz(obs["ws"][1]), clist(items))
 
     def _coq_wreal(self, case, obs):
         rest = case["kind"] == "wrest"
@@ -824,6 +924,21 @@ class C02(Property):
             return [(case, obs)]
         if kind == "multi":
             return self._split(case, obs)
+        if kind == "conc":
+            ops, ob = [], []
+            for o, b in zip(case["ops"], obs["obs"]):
+                if o[0] in ("allow", "decide"):
+                    a = o[1:] if o[0] == "allow" else o[2:]
+                    ops.append(["allow", a[0], a[1], a[2]])
+                    ob.append(b)
+                elif o[0] in ("pass", "fail"):
+                    ops.append(list(o))
+                    ob.append(b)
+                else:
+                    ops.append(["fail", -1])
+                    ob.append({"done": False, "fl": b["fl"], "am": b["am"], "ae": b["ae"]})
+            return [({"window": case["window"], "buckets": case["buckets"], "threshold": case["threshold"], "t0": case["t0"],
+                      "enabled": True, "via": "direct", "mode": "split", "ops": ops}, {"obs": ob, "nop": False, "same": True})]
         if kind in ("wrest", "wrpc"):
             ops, ob = [], []
             for o, b in zip(case["ops"], obs["obs"]):
@@ -839,6 +954,11 @@ class C02(Property):
 
     def nontrivial(self, case, obs):
         kind = case.get("kind", "shed")
+        if kind == "conc":
+            # overlapping Allows whose verdicts differ, at least one of them parked as a dropper while another decided
+            ob = obs["obs"]
+            dec = [b["shed"] for o, b in zip(case["ops"], ob) if o[0] == "decide"]
+            return len(dec) >= 3 and any(dec) and not all(dec)
         if kind in ("multi", "wrest", "wrpc"):
             vs = self._views(case, obs)
             live = [(c, o) for c, o in vs if not o["nop"]]
@@ -866,10 +986,20 @@ class C02(Property):
 
     def features(self, case, obs):
         kind = case.get("kind", "shed")
-        if kind in ("multi", "wrest", "wrpc"):
+        if kind in ("multi", "wrest", "wrpc", "conc"):
             fs = ["kind=" + kind]
             vs = self._views(case, obs)
-            if kind == "multi":
+            if kind == "conc":
+                par, mx = 0, 0
+                for o in case["ops"]:
+                    par += 1 if o[0] == "enter" else -1 if o[0] == "decide" else 0
+                    mx = max(mx, par)
+                fs.append("allows_parked_at_once=%d" % mx)
+                if any(o[0] == "decide" and b["shed"] for o, b in zip(case["ops"], obs["obs"])):
+                    fs.append("conc_dropper_parked_at_log")
+                if any(o[0] == "decide" and not b["shed"] and b["fl"] >= 2 for o, b in zip(case["ops"], obs["obs"])):
+                    fs.append("conc_let_in_while_others_decide")
+            elif kind == "multi":
                 fs.append("shedders=%d" % len(vs))
                 if any(o["nop"] for c, o in vs) and any(not o["nop"] for c, o in vs):
                     fs.append("disable_between_constructions")
@@ -879,10 +1009,11 @@ class C02(Property):
                 if len(set(cfgs)) < len(cfgs):
                     fs.append("two_shedders_same_config")
             else:
-                ob = obs["obs"]
+                ob = obs["obs"] if kind != "conc" else []
                 if any(b["k"] == "finish" and b["panic"] for b in ob):
                     fs.append("wrapper_handler_panics")
-                fs.append("max_in_flight<=%d" % (5 * (1 + max([b["fl"] for b in ob] + [0]) // 5)))
+                if kind != "conc":
+                    fs.append("max_in_flight<=%d" % (5 * (1 + max([b["fl"] for b in ob] + [0]) // 5)))
             for c, o in vs:
                 if o["nop"]:
                     continue
@@ -939,6 +1070,8 @@ class C02(Property):
         ops = case["ops"]
         n = len(ops)
         ref = {"pass": 2, "fail": 2, "finish": 1}
+        if case.get("kind") == "conc":
+            ref = {"pass": 1, "fail": 1, "finish": 1, "decide": 1}
         res = []
         chunk = max(1, n // 2)
         while True:
@@ -948,6 +1081,13 @@ class C02(Property):
                     continue
                 ks = set(keep)
                 kept = [j for j in keep if ops[j][0] not in ref or ops[j][ref[ops[j][0]]] in ks]
+                if case.get("kind") == "conc":
+                    # a pass / fail whose decide went away goes too (its reference is two hops: decide -> enter)
+                    k2 = set(kept)
+                    kept = [j for j in kept if ops[j][0] not in ("pass", "fail") or ops[j][1] in k2]
+                    # a finish needs the decide of its thread
+                    dec = {ops[j][1] for j in kept if ops[j][0] == "decide"}
+                    kept = [j for j in kept if ops[j][0] != "finish" or ops[j][1] in dec]
                 new = {j: k for k, j in enumerate(kept)}
                 out = []
                 for j in kept:
@@ -964,7 +1104,7 @@ class C02(Property):
 
     def shrink_candidates(self, case):
         kind = case.get("kind", "shed")
-        if kind in ("multi", "wrest", "wrpc"):
+        if kind in ("multi", "wrest", "wrpc", "conc"):
             return self._shrink_scenario(case)
         if kind != "shed":
             fld = "keys" if kind == "group" else "reqs"
@@ -1038,6 +1178,12 @@ class C02(Property):
         return self.KNOWN_NAN if EXCL_CACHE[term] else None
 
     def describe_failure(self, case, obs):
+        if case.get("kind") == "conc":
+            return ("overlapping Allow calls under a forced schedule (parked inside systemOverloadChecker / at the drop log "
+                    "line): ordered by their decisions, a call was shed although fewer requests than 10% of the capacity "
+                    "(or none at all) were let in and unresolved at that moment, or was let in although overloaded and "
+                    "saturated - in-flight counted by the executor (promises handed out - promises resolved), not read from "
+                    "the shedder")
         if case.get("kind") in ("wrest", "wrpc"):
             return ("wrapper in front of a real shedder, overlapping requests: a request was shed although not hot / not above "
                     "10% of capacity (what the shedder counts as in flight is not what is in flight: a promise was not resolved, "
